@@ -3,6 +3,7 @@
 package headers
 
 import (
+	"strings"
 	"bufio"
 	"bytes"
 	"fmt"
@@ -62,7 +63,22 @@ var vfHostile = []string{"true", "false", "null", "~", "123", "1.5", "0x1F", "1e
 	"2001-01-01", "12:30:45", "é", "日本語", " nbsp", "tab\there", "back\\slash", "\u2028", "\u0085", "\ufeff", "NaN", ".inf", "null ", "True", "NULL"}
 
 func vfGenHdrString(t *rapid.T, label string) string {
-	switch rapid.IntRange(0, 3).Draw(t, label+"_kind") {
+	switch rapid.IntRange(0, 4).Draw(t, label+"_kind") {
+	case 4:
+		// long values with blanks: the camera daemon's YAML encoder folds them over several indented lines
+		n := rapid.IntRange(70, 250).Draw(t, label+"_len")
+		var b []byte
+		for len(b) < n {
+			w := rapid.StringMatching(`[a-zA-Z0-9._\-]{1,12}`).Draw(t, label+"_w")
+			if len(b) > 0 {
+				b = append(b, ' ')
+			}
+			b = append(b, w...)
+		}
+		if len(b) > 255 {
+			b = b[:255]
+		}
+		return strings.TrimRight(string(b), " ")
 	case 0:
 		return rapid.SampledFrom(vfHostile).Draw(t, label)
 	case 1:
